@@ -38,12 +38,18 @@
   every app config, every limits — no bounds.  `c02_top_vars_exact` / `c02_complete` additionally assume `NoCut0`
   (the search of the paused frame's locals ran to its end), a decidable predicate on (heap, limits, locals).
 
+  Time budget: the theorems take the per-frame bit `timeUp` as an arbitrary function; `c02_frames_after_budget` instantiates
+  it with what the frame collector computes from a scripted clock (`CollectorTime.decisions`, regenerated `__time_exceeded`
+  and guard — see Props/C05 `c05_time_*`): every frame stays listed with all its fields, frames reached after the budget
+  carry no variables.
+
   Tripwires (facts about regenerated constants / definitional unfoldings, proved by `decide` / `rfl`; they break when
   the source changes, they carry no ∀ of their own): `c02_walk_starts_at_top`, `c02_variable_sources`,
   `c02_modifiers`, `c02_watch_inputs`, the first two conjuncts of `c02_watches_same_frame`.
 -/
 import DeepModel.Proofs.Frames
 import DeepModel.Proofs.FramesExact
+import DeepModel.Proofs.CollectorTime
 
 namespace C02
 open Heap Collector FrameBase Extracted.Frames Extracted.Collector Frames
@@ -659,5 +665,43 @@ example : exSnap.map (fun s => s.watches.map (fun w => (w.expr, w.vid, w.error))
 
 set_option maxRecDepth 8000 in
 example : exSnap.map (fun s => s.tracepoint.get_args.map (·.1)) = some ["frame_type", "MAX_VARIABLES"] := by decide
+
+/-! ### the time budget (the oracle bit `timeUp` of the theorems above, instantiated by a scripted clock) -/
+
+/-- what `should_collect_vars` says for the frames of a stack of depth `n` -/
+def selections (config : Cfg) (n : Nat) : List Bool := (List.range n).map (fun (j : Nat) => shouldCollectVars config (j : Int))
+
+/-- `timeUp` as the frame collector computes it from its clock (`CollectorTime.decisions`: the regenerated
+    `__time_exceeded` and guard of `_process_frame`) -/
+def timeUpOf (ck : CollectorTime.Clock) (config : Cfg) (n : Nat) : Nat → Bool :=
+  fun i => !((CollectorTime.decisions ck (selections config n))[i]?.getD false)
+
+/-- **frames reached after the time budget** — for every scripted clock, stack, heap and configuration: the snapshot still
+    lists EVERY frame of the real stack, in order, with file / function / line / class of self / app flag / short path
+    intact, and a frame that `CollectorTime.Spec.collects` rejects (not selected by the frame type, or reached after a
+    reading more than `maxMs` ms past the trigger's time stamp) carries no variables. -/
+theorem c02_frames_after_budget (H : Heap) (id path : String) (line : Int) (config : Cfg) (app : AppCfg)
+    (ck : CollectorTime.Clock) (stack : Stack) (ev : EvalOracle) (s : Frames.Snapshot)
+    (h : snapshot H id path line config app (timeUpOf ck config stack.length) stack ev = .ok s) :
+    s.frames.map Spec.viewOf = stack.map (Spec.frameView H app) ∧
+    ∀ i, i < stack.length → CollectorTime.Spec.collects ck (selections config stack.length) i = false →
+      (s.frames[i]?).map (·.variables) = some [] := by
+  constructor
+  · obtain ⟨cs, _, rfl⟩ := snapshot_ok h
+    exact c02_frames H app stack cs.frames
+  · intro i hi hc
+    apply c02_unselected_frames_empty H id path line config app _ stack ev s h i hi
+    have hlen : i < (selections config stack.length).length := by simpa [selections] using hi
+    have hd : (CollectorTime.decisions ck (selections config stack.length))[i]? = some false := by
+      have := CollectorTime.decisionsFrom_spec ck (selections config stack.length) 0 i hlen
+      unfold CollectorTime.decisions
+      rw [CollectorTime.initial_flag, this]
+      simpa [CollectorTime.Spec.collects] using hc
+    simp only [varsCollected, timeUpOf, hd, Option.getD_some, Bool.not_false, Bool.not_true, Bool.and_false]
+
+/-- non-vacuity: all_frame, three frames, the second reading is 1 ns over a 100 ms budget: frames 1 and 2 are rejected -/
+example : let ck : CollectorTime.Clock := ⟨1, 100, fun k => [5, 100000002, 0].getD k 0⟩
+    (List.range 3).map (CollectorTime.Spec.collects ck (selections [("frame_type", .text "all_frame")] 3)) =
+      [true, false, false] := by decide
 
 end C02
